@@ -126,6 +126,12 @@ def short_callee(name):
 def fn_key(path):
     p = strip_generics(path)
     p = re.sub(r"<'[a-z_]+>", "", p)
+    # closure numbering shifts when an unrelated closure is added: keep only the coroutine marker of async fns
+    head, sep, tail = p.partition("::{closure#0}")
+    tail = re.sub(r"\{closure#\d+\}", "{closure}", tail)
+    p = head + sep + tail
+    if not sep:
+        p = re.sub(r"\{closure#\d+\}", "{closure}", p)
     return p
 
 
@@ -144,6 +150,65 @@ def prov(body, op, limit=4):
     if not parts:
         parts = params[:limit] + up[:limit]
     return ",".join(parts)
+
+
+def operand_text(body, op, depth=0):
+    """Stable, human-readable rendering of an operand: user variable names, field names, callee names."""
+    if op is None:
+        return "?"
+    if op.get("k") == "const":
+        if op.get("uneval"):
+            return op["uneval"]["name"]
+        v = op.get("val")
+        return str(v) if not isinstance(v, str) else "str"
+    pl = op["pl"] if "pl" in op else op
+    proj = []
+    for p in pl["p"]:
+        if isinstance(p, dict) and "f" in p:
+            proj.append(str(p["n"] if p.get("n") is not None else p["f"]))
+        elif isinstance(p, dict) and "dc" in p:
+            proj.append(str(p["dc"]))
+        elif isinstance(p, dict) and "idx" in p:
+            proj.append("[]")
+    l = pl["l"]
+    key = None
+    from mir import _place_key
+    if _place_key(pl) in body.upvar_names:
+        return body.upvar_names[_place_key(pl)]
+    if l in body.names:
+        return ".".join([body.names[l]] + proj)
+    if depth < 6:
+        ds = body.whole_defs(l)
+        if len(ds) == 1:
+            d = ds[0]
+            if d[0] == "stmt":
+                rv = d[3]["rv"]
+                if rv["k"] == "use":
+                    base = operand_text(body, rv["op"], depth + 1)
+                    return ".".join([base] + proj) if proj else base
+                if rv["k"] in ("ref", "rawptr"):
+                    base = operand_text(body, {"pl": rv["pl"]}, depth + 1)
+                    return ".".join([base] + proj) if proj else base
+                if rv["k"] == "cast":
+                    return operand_text(body, rv["op"], depth + 1)
+                if rv["k"] == "bin":
+                    if proj and proj[-1] in ("0", "1"):
+                        proj = proj[:-1]
+                    return "(%s %s %s)" % (operand_text(body, rv["a"], depth + 1), rv["op"], operand_text(body, rv["b"], depth + 1))
+                if rv["k"] == "agg":
+                    return "%s{%s}" % (rv.get("variant") or rv.get("what"), ",".join(operand_text(body, o, depth + 1) for o in rv["ops"][:3]))
+                if rv["k"] == "discr":
+                    return "discr(%s)" % operand_text(body, {"pl": rv["pl"]}, depth + 1)
+            elif d[0] == "call":
+                t = d[2]
+                nm = short_callee(callee_resolved(t) or "?")
+                args = [operand_text(body, o, 5) for o in t["ops"][:2]] if depth < 3 else []
+                args = [a for a in args if re.fullmatch(r"[A-Za-z][\w.]*|\d+", a)]
+                base = "%s(%s)" % (nm, ",".join(args))
+                return ".".join([base] + proj) if proj else base
+    if 1 <= l <= body.fn["arg_count"]:
+        return ".".join(["arg%d" % l] + proj)
+    return ".".join(["_"] + proj) if proj else "_"
 
 
 class Site:
@@ -197,7 +262,8 @@ def enumerate_sites(ctx, body):
         blk = body.blocks[i]
         t = blk["term"]
         if t["k"] == "assert":
-            out.append(Site(body, i, "assert", t["msg"], t["ops"][0] if t["ops"] else None, t, {"ops": t["ops"], "cond": t["cond"], "expected": t["expected"]}))
+            txt = "%s(%s)" % (t["msg"], ",".join(operand_text(body, o) for o in t["ops"]))
+            out.append(Site(body, i, "assert", txt, t["ops"][0] if t["ops"] else None, t, {"ops": t["ops"], "cond": t["cond"], "expected": t["expected"], "msg": t["msg"]}))
             continue
         if t["k"] != "call":
             continue
@@ -211,19 +277,17 @@ def enumerate_sites(ctx, body):
                 out.append(Site(body, i, "panic", "diverging call " + short_ty(nm), None, t))
             continue
         if UNWRAPS.search(nm):
-            o = body.origin(t["ops"][0], through_calls=False)
-            src = short_callee(callee_resolved(o[2]) or "?") if o[0] == "call" else o[0]
-            out.append(Site(body, i, "unwrap", "%s::%s<-%s" % (nm.split("::")[-2], nm.split("::")[-1], src), t["ops"][0], t))
+            out.append(Site(body, i, "unwrap", "%s::%s<-%s" % (nm.split("::")[-2], nm.split("::")[-1], operand_text(body, t["ops"][0], 1)), t["ops"][0], t))
         elif BYTES_PANIC.search(nm) or BYTES_PANIC.search(res):
             extra = {}
             if strip_generics(body.path).endswith("Decoder::advance_by"):
                 extra = {"transfer": "Decoder::advance_by"}
-            out.append(Site(body, i, "bytes", (nm if BYTES_PANIC.search(nm) else res).replace("bytes::", "").replace("buf::", ""), t["ops"][0] if t["ops"] else None, t, extra))
+            out.append(Site(body, i, "bytes", "%s(%s)" % ((nm if BYTES_PANIC.search(nm) else res).replace("bytes::", "").replace("buf::", ""), ",".join(operand_text(body, o, 1) for o in t["ops"][:2])), t["ops"][0] if t["ops"] else None, t, extra))
         elif nm.endswith("core::utils::Decoder::advance_by"):
-            out.append(Site(body, i, "bytes", "Decoder::advance_by", t["ops"][0], t))
+            out.append(Site(body, i, "bytes", "Decoder::advance_by(%s)" % ",".join(operand_text(body, o, 1) for o in t["ops"][:2]), t["ops"][0], t))
         elif INDEXING.search(nm):
             self_ty = (t["callee"].get("self_ty") or "")
-            out.append(Site(body, i, "index", "%s[%s]" % (short_ty(self_ty.split("<")[0]) or "?", short_ty(((t["callee"].get("args") or ["", "?"])[1:] or ["?"])[0])), t["ops"][0], t))
+            out.append(Site(body, i, "index", "%s[%s](%s)" % (short_ty(self_ty.split("<")[0]) or "?", short_ty(((t["callee"].get("args") or ["", "?"])[1:] or ["?"])[0]), ",".join(operand_text(body, o, 1) for o in t["ops"][:2])), t["ops"][0], t))
         elif STD_PANIC.search(nm):
             out.append(Site(body, i, "std", "::".join(nm.split("::")[-2:]), t["ops"][0] if t["ops"] else None, t))
     return out
@@ -248,7 +312,7 @@ def d_const(site):
                 if lo[0] == "call" and (_buf_ids(body, lo[2]["ops"][0]) & a):
                     return "D-const: range 0..len() of the same slice"
         return None
-    if site.kind == "std" and re.search(r"(Shl|Shr)::sh[lr]$", site.what):
+    if site.kind == "std" and re.search(r"(Shl|Shr)::sh[lr]", site.what):
         k = body.fold(site.term["ops"][1]) if len(site.term["ops"]) > 1 else None
         if k is not None and 0 <= k < 8:
             return "D-const: shift by constant %d" % k
@@ -263,7 +327,7 @@ def d_const(site):
     if len(ops) == 2:
         a, b = body.fold(ops[0]), body.fold(ops[1])
         if a is not None and b is not None:
-            m = re.match(r"Overflow\((\w+)\)", site.what)
+            m = re.match(r"Overflow\((\w+)\)", site.extra["msg"])
             if m:
                 op = m.group(1)
                 r = {"Add": a + b, "Sub": a - b, "Mul": a * b, "Shl": a << b if 0 <= b < 64 else None}.get(op)
@@ -402,7 +466,7 @@ MEMLEN_CALLS = re.compile(r"(::byte_len|Option::unwrap|::len|::packet_len|::rema
 def d_memlen(site):
     """usize additions / multiplications of in-memory lengths (byte_len(), len(), size_of, small constants)
     cannot exceed usize::MAX for objects that exist in memory."""
-    if site.kind != "assert" or not site.what.startswith("Overflow(Add)"):
+    if site.kind != "assert" or not site.extra["msg"].startswith("Overflow(Add)"):
         return None
     body = site.body
     ops = site.extra["ops"]
@@ -524,7 +588,7 @@ def d_len(site):
         return None
     body = site.body
     t = site.term
-    meth = site.what.split("::")[-1]
+    meth = site.what.split("(")[0].split("::")[-1]
     if site.extra.get("transfer"):
         return "D-transfer: obligation passed to every caller of %s (each call is a site of its own)" % site.extra["transfer"]
     bids = _buf_ids(body, t["ops"][0])
@@ -556,7 +620,7 @@ def d_cmp(site):
     """Sub / Add overflow checks protected by a dominating direct comparison of the same operands."""
     if site.kind != "assert":
         return None
-    m = re.match(r"Overflow\((Sub|Add)\)", site.what)
+    m = re.match(r"Overflow\((Sub|Add)\)", site.extra["msg"])
     if not m:
         return None
     body = site.body
@@ -808,3 +872,41 @@ def _variant_set(body, op, bb, adt, ctx):
                 names.add(si["variants"].get(v))
         cur &= names
     return cur
+
+
+@rule("VARINT-GUARD", floor=3)
+def varint_guard(ctx):
+    """In VarSizeInt::try_from(&[u8]) every overflow-checked multiplication / addition that involves the
+    running multiplier is dominated by the test that the multiplier has not exceeded VarSizeInt::MAX
+    (the test comes before the arithmetic of the same iteration)."""
+    b = ctx.body(r"core::base_types::VarSizeInt as std::convert::TryFrom<&\[u8\]>>::try_from$")
+    mx = None
+    for c in ctx.facts.consts:
+        if c["name"] == "MAX" and (c["self_ty"] or "").endswith("VarSizeInt"):
+            mx = c["val"]
+    out = []
+    mult_locals = {l for l, n in b.names.items() if n == "mult"}
+    if not mult_locals or mx is None:
+        raise AnchorLost("`mult` / VarSizeInt::MAX in VarSizeInt::try_from(&[u8])")
+    for s_ in enumerate_sites(ctx, b):
+        if s_.kind != "assert" or "mult" not in s_.what:
+            continue
+        guarded = None
+        for (d, e) in dominating_edges(b, s_.bb):
+            c = Cond(b, d)
+            if c.kind != "cmp":
+                continue
+            n = c.cmp_norm(lambda x: x.get("k") != "const" and b.base_local(x) in mult_locals)
+            if not n:
+                continue
+            k = b.fold(n[1])
+            truth = c.holds_on(e)
+            if k is None or truth is None:
+                continue
+            eff = n[0] if truth else {"Lt": "Ge", "Ge": "Lt", "Gt": "Le", "Le": "Gt", "Eq": "Ne", "Ne": "Eq"}[n[0]]
+            if (eff == "Le" and k <= mx) or (eff == "Lt" and k <= mx + 1):
+                guarded = (eff, k, b.site(d))
+        out.append(Inst("VARINT-GUARD", s_.what, guarded is not None, s_.site(),
+                        "%s is %s" % (s_.what, "dominated by `mult %s %d` at %s" % guarded if guarded else "NOT preceded by the bound test on the multiplier: a fifth continuation byte overflows u32"),
+                        "mult <= 0x%x (so mult is one of 1, 2^7, 2^14, 2^21) before it is used" % mx))
+    return out
